@@ -12,7 +12,7 @@ CHECKS = {
              note='trusted: ref/arith_catalogue.py (+arith_cat_*), Python int / ref/polys.py; cross product complete up to a stated tuple limit per cell, pairwise-full above', ref='4/C05'),
  'C06': dict(cat='model_checking', tech='complete enumeration of all ordered point pairs of complete small curves and closed subgroups, and of every scalar 0..2*ord+2 in every word layout, on the real ec/ecp/ec2 code against an affine group-law reference',
              text='GF(p): complete curves over p in {11, 13, 251 (, 1021)} of every group class (prime/odd order, one or three points of order 2, A = -3, A = 0, B = 0): every ordered pair (P, Q) incl. O through add/sub/adda/suba and neg/dbl/tpl/toa/froma/dbla with projective inputs scaled by 4 factors, 4 representations of O, aliasings c=a, c=b, a=b; '
-                  'ecpIsOnA on all raw (x, y) in [0, p+1]^2; every scalar k in 0..2*ord+2 in four word layouts and lengths selecting every NAF window width; ecHasOrderA, ecAddMulA with 1-3 terms; closed subgroups of order 72/210 over ten multi-word primes (Plain, Montgomery, Crandall rings, 2..8 words); '
+                  'ecpIsOnA on all raw (x, y) in [0, p+1]^2; ecpIsValid / ecpSeemsValidGroup / ecpIsSafeGroup on 42 (66) curves with known group order and embedding degree (thresholds around it, composite / anomalous orders, Hasse violations, base off the curve); every scalar k in 0..2*ord+2 in four word layouts and lengths selecting every NAF window width; ecHasOrderA, ecAddMulA with 1-3 terms; closed subgroups of order 72/210 over ten multi-word primes (Plain, Montgomery, Crandall rings, 2..8 words); '
                   'ec2: complete subfield curves E(GF(2^d)), d in {5, 7, 11}, inside GF(2^70..110); SWU on every admissible field element of 30 (48) curves; boundary points x scalars on 22 standard curves; exact xxx_deep stacks with guard zones; 64- and 32-bit words.',
              note='trusted: ref/ecp.py, ref/ec2.py (vector-gated); gf2Create refuses fields below one word, hence subfield curves for the binary case', ref='4/C06'),
  'C08': dict(cat='model_checking', tech='exhaustive enumeration of all octet / character strings up to a length bound through every decoder on exact-size buffers (ASan redzones and guard pages), structure-aware mutation classes of valid encodings, against a spec-level grammar model; encoder boundary alphabets decoded back',
@@ -42,7 +42,8 @@ CHECKS = {
  'C04': dict(cat='model_checking', tech='exhaustive enumeration of protocol histories with one adversary action (every octet of every message x masks, point substitutions, mismatches, validator errors, every channel-call fault of the Run drivers) on the real code; relational oracle + spec-level reference for honest runs',
              text='3 curves x {BMQV, BSTS, BPACE, BAUTH} x admissible (kca,kcb) x hello shapes x tapes (incl. multipliers engineered to 0): honest runs succeed with equal keys (= ref/bake.py), step by step and through RunA/RunB against a scripted channel; '
                   'ONE adversary action per run: flip of every octet of every message, 18 point substitutions on every point-carrying message, length changes, mismatched passwords/keys/certificates/hello, each validator call failing, '
-                  'every read/write call index answering an error / short read / premature end: never all-OK with equal keys, error where confirmation exists, invalid points refused by the receiving step, drivers leave nothing allocated. '
+                  'every read/write call index answering an error / short read / premature end: never all-OK with equal keys, error where confirmation exists, invalid points refused by the receiving step, drivers leave nothing allocated; '
+                  'authenticated insider: BSTS M2 / M3 and BAUTH M3 re-sealed by the reference model (correct tag, correctly encrypted body) with the signature scalar in {q, q + 1, 2^2l - 1}, its aliases s + q of engineered small s, and foreign / off-curve / mis-sized certificates: the receiving step must refuse, the honest control must be accepted. '
                   'The -P substitution where the standards use x-coordinates only is listed as a known finding.',
              note='trusted: ref/bake.py, ref/ecp.py; certificate validator and channel are drv/vh_c04.c', ref='4/C04'),
  'C17': dict(cat='model_checking', tech='explicit-state search (BFS on raw state bytes of both secure-messaging endpoints) with tamper probes at every reached state; exhaustive chain/alteration enumeration for CV certificates and key containers against a spec-level reference',
@@ -65,7 +66,7 @@ CHECKS = {
  'C15': dict(cat='fault_enumeration', tech='deallocator monitor (link-time --wrap) over every exit of every secret-taking call: success, authentication failure and each enumerated allocation-fault index',
              text='Every block handed back to the allocator during a secret-taking high-level call is snapshotted at the moment of release and scanned for 8-octet windows of the secret inputs, their '
                   'expanded forms (belt key schedule, HMAC ipad/opad, hashed long keys), module-specific derived secrets and -- on failing unwraps of authentic tokens -- the content the token protects, on the success exit, on authentication-failure exits (one representative of every (function, altered field) class at least) and on every '
-                  'allocation-fault exit (fail exactly the i-th allocation, for all i).',
+                  'allocation-fault exit (fail exactly the i-th allocation, for all i); the success exit of overlap-tolerant functions also under the buffer placements of C11.',
              note='trusted: link-time --wrap of free/realloc; needle derivation from the reference models; constant keys skipped (indistinguishable from wiped memory)', ref='4/C15'),
  'C09': dict(cat='fault_enumeration', tech='exhaustive fault-point enumeration (fail exactly the i-th allocation for every i) plus exhaustive argument-boundary sweeps, a NULL-pointer sweep over every pointer argument, and single-bit authentication corruptions on the real code under ASan',
              text='For every high-level call of the corpora the number N of allocation points is measured and the call is re-run N times with exactly the i-th allocation failing (malloc and realloc, realloc always moving): '
@@ -76,7 +77,7 @@ CHECKS = {
              note='trusted: link-time --wrap of the allocator, ASan runtime, error classes transcribed from the headers', ref='4/C09'),
  'C10': dict(cat='model_checking', tech='explicit-state search (BFS) over (position, raw bytes of the real state blob) with every admissible fragment length, Get/Verify and relocation as transitions',
              text='For each Start/Step/Get bundle the reachable set of (position, state bytes) nodes is closed under Step(f) for every admissible fragment length, Get/Get2/Verify (continuing from the state after Get '
-                  'where the header allows it) with every transition executed on a relocated copy of the state while the vacated locations stay poisoned; since the code is a deterministic function of (state bytes, '
+                  'where the header allows it) with every transition executed on a relocated copy of the state while the vacated locations stay poisoned, and with every buffer that was handed to Start poisoned and released as soon as Start returns (unless the header obliges the caller to keep it); since the code is a deterministic function of (state bytes, '
                   'fragment) this covers every partition of the message into any number of fragments with Get/Verify and moves interleaved anywhere; invariant: equality with the one-shot function.',
              note='trusted: gcc -O2 build; one-shot functions tied to the standards by C01/C03; bash states restored in place (relocation not documented for bash)', ref='4/C10'),
  'C07': dict(cat='model_checking', tech='exhaustive replay of the bounded shape corpora on sanitizer-instrumented real code with exact-size allocations; two-fill non-interference',
